@@ -64,6 +64,43 @@ def classify(check, results, table):
                                 {"src": t["src"], "ver": m["ver"], "fail": f, "variants": sig_used})
 
 
+# PHP's literal syntax (language.types.integer / float): every spelling class, as an expression statement operand.
+# (class, spelling, node kind); "7" = needs >= 7.4 (numeric separator)
+LITERALS = [
+    ("dec", "0", "ScalarLnumber", "both"), ("dec", "42", "ScalarLnumber", "both"), ("dec-max", "9223372036854775807", "ScalarLnumber", "both"),
+    ("dec-overflow", "9223372036854775808", "ScalarDnumber", "both"),
+    ("oct", "0777", "ScalarLnumber", "both"), ("oct", "00", "ScalarLnumber", "both"),
+    ("hex-lower", "0x1f", "ScalarLnumber", "both"), ("hex-lower", "0xAB", "ScalarLnumber", "both"),
+    ("hex-upper", "0X1F", "ScalarLnumber", "both"), ("hex-upper", "0Xab", "ScalarLnumber", "both"),
+    ("bin-lower", "0b101", "ScalarLnumber", "both"), ("bin-upper", "0B101", "ScalarLnumber", "both"),
+    ("sep", "1_000", "ScalarLnumber", "7"), ("sep", "0x1_F", "ScalarLnumber", "7"), ("sep", "0b1_0", "ScalarLnumber", "7"), ("sep", "1_0.2_5", "ScalarDnumber", "7"),
+    ("float", "1.5", "ScalarDnumber", "both"), ("float", ".5", "ScalarDnumber", "both"), ("float", "1.", "ScalarDnumber", "both"),
+    ("float-exp", "1e3", "ScalarDnumber", "both"), ("float-exp", "1E3", "ScalarDnumber", "both"), ("float-exp", "1.5e-3", "ScalarDnumber", "both"),
+    ("float-exp", "2E+10", "ScalarDnumber", "both"), ("float-exp", ".5e1", "ScalarDnumber", "both"),
+]
+
+
+def literal_cases():
+    out = []
+    for cls, lit, kind, fam in LITERALS:
+        for tmpl, path in (("<?php $a = %s;", ("Stmts", 0, "Expr", "Expr")), ("<?php f(%s , 1);", ("Stmts", 0, "Expr", "Args", 0, "Expr")),
+                           ("<?php return -%s;", ("Stmts", 0, "Expr", "Expr"))):
+            out.append({"cls": cls, "lit": lit, "kind": kind, "fam": fam, "src": tmpl % lit, "path": path})
+    return out
+
+
+def walk_path(tree, path):
+    n = tree
+    for p in path:
+        if n is None:
+            return None
+        if isinstance(p, int):
+            n = n[p] if isinstance(n, list) and p < len(n) else None
+        else:
+            n = (n.get("f") or {}).get(p) if isinstance(n, dict) else None
+    return n
+
+
 def run(tier):
     check = core.Check("C03", tier)
     rng = random.Random(core.seed())
@@ -132,6 +169,24 @@ def run(tier):
             check.violation({"class": "token-id", "want": exp[k], "got": got[k]},
                             {"path": c["path"], "src": c["src"].decode("latin-1"), "flex": c["flex"], "expected_ids": exp, "observed_ids": got})
     check.cov["lexer_streams_compared"] = nlex
+    # literal spellings
+    lits = literal_cases()
+    tasks = [{"op": "tree", "src": c["src"], "ver": v, "_c": c} for c in lits for v in (("7.4", "5.6") if c["fam"] == "both" else ("7.4",))]
+    for t, r in zip(tasks, wp.run([{k: v for k, v in t.items() if k != "_c"} for t in tasks])):
+        c = t["_c"]
+        check.count()
+        check.distinct(("literal", c["src"], t["ver"]))
+        if r.get("panic") or r.get("hang") or r.get("crash"):
+            continue
+        if r.get("errs"):
+            check.violation({"class": "literal-rejected", "literal_class": c["cls"]}, {"src": c["src"], "ver": t["ver"], "errors": r.get("errs")})
+            continue
+        n = walk_path(r.get("tree"), c["path"])
+        val = ((n or {}).get("f") or {}).get("Value", {}).get("val") if isinstance(n, dict) else None
+        if not isinstance(n, dict) or n.get("k") != c["kind"] or val != c["lit"]:
+            check.violation({"class": "literal-node", "literal_class": c["cls"], "got": (n or {}).get("k") if isinstance(n, dict) else None},
+                            {"src": c["src"], "ver": t["ver"], "expected": [c["kind"], c["lit"]], "observed": n})
+    check.cov["literal_cases"] = len(tasks)
     check.cov["traces_validated_against_impl"] = check.cov.get("evaluations", 0)
     check.assumptions += ["Syntax.tla: my transcription of PHP's grammar by node kind and of the documented precedence table",
                           "expander vf/syntax.py (interprets the exported table), lexeme spellings, conservative Fuses rule"]
